@@ -272,6 +272,7 @@ def tables_hold_numbers(net):
 
 
 TOL_OF = {"mdot": "tol_m", "p": "tol_p", "mdotslack": "tol_m", "T": "tol_T", "Tout": "tol_T", "TOUT": "tol_T"}
+BUDGET_OF = {"hydraulics": "max_iter_hyd", "heat": "max_iter_therm", "bidirectional": "max_iter_bidirect"}
 TOL_DEFAULT = {"tol_m": 1e-5, "tol_p": 1e-5, "tol_T": 1e-3, "tol_res": 1e-3}
 
 
@@ -287,6 +288,12 @@ def check_trace(obs, trace, returned, opts, desc):
             cur = []
     for end, iters in stages:
         obs.count("nr_iterations_observed", len(iters))
+        if end["mode"] in BUDGET_OF:
+            asked = int(opts.get(BUDGET_OF[end["mode"]], opts.get("iter", 10)))
+            obs.count("stage_budgets_judged_against_requested")
+            if int(end["max_iter"]) != asked:
+                obs.violate("stage_ran_under_other_budget", "stage %s ran under a budget of %d iterations, the options ask for %d"
+                            % (end["mode"], int(end["max_iter"]), asked), **desc)
         if int(end["niter"]) > int(end["max_iter"]):
             obs.violate("budget_exceeded", "stage %s ran %d iterations, budget %d" % (end["mode"], end["niter"], end["max_iter"]), **desc)
         if bool(end["converged"]):
